@@ -43,7 +43,7 @@ TRIGGERS = {
     "json-undefined-not-serializable": ["undefined"],
     "json-memcpy-not-serializable": ["memcpy"],
     "json-inline-asm-not-serializable": ["inline-asm"],
-    "json-forward-reference-typed-ptr": ["fwd-binop-non-ptr", "fwd-unop", "fwd-addressof"],
+    "json-forward-reference-typed-ptr": ["fwd-conflict-json"],
     "parameter-name-not-reserved": ["param-clash"],
 }
 DIALS = {
@@ -210,6 +210,13 @@ def _fwd(kind, ty):
     return build
 
 
+def _selfphi():
+    from ppci import ir
+    from vlib import irrt
+
+    return irrt.directed_selfphi_forward(ir.u8)
+
+
 def _paramclash():
     from checks import c15
 
@@ -223,6 +230,6 @@ PROBES = {
     "json-memcpy-not-serializable": _probe(_from_c15("_w_memcpy")),
     "json-inline-asm-not-serializable": _probe(_from_c15("_w_asm")),
     "json-forward-reference-typed-ptr": _both(_probe(_fwd("binop", "i32")), _probe(_fwd("unop", "f64")),
-                                              _probe(_fwd("addressof", "i32"))),
+                                              _probe(_fwd("addressof", "i32")), _probe(_selfphi)),
     "parameter-name-not-reserved": _probe(_paramclash),
 }
